@@ -69,7 +69,7 @@ def check(run):
             bind.check_unpacks(run, repo, f)
             conv = 'map_to_state' if q.endswith('to_state') else 'state_to_map'
             calls = [c for c, t, h in repo.callees(f) if h == 'name' and t[0].name == conv]
-            run.check(len(calls) == 1 and [norm(x) for x in calls[0].args] == ['self.gs', 'self.ps'], 'R2.conv', f, conv,
+            run.check(len(calls) == 1 and K.actual_texts(repo.resolve_local(f, conv), calls[0]) == ['self.gs', 'self.ps'], 'R2.conv', f, conv,
                       '%s must convert (self.gs, self.ps) with %s' % (q, conv))
         ts = repo.func(rel, 'CliffordMap.to_state')
         rets = [st.value for st, _ in walk(ts.node) if isinstance(st, ast.Return)]
@@ -131,25 +131,28 @@ def check(run):
         proj = [(st, ctx) for st, ctx in walk(ss.node) if isinstance(st, ast.Assign) and isinstance(st.value, ast.Call) and norm(st.value.func) == 'stabilizer_project']
         if raises and proj:
             run.check(raises[0][0].lineno < proj[0][0].lineno, 'R11.commute', ss, 'check before projection', 'the commutation check must come before the projection')
-        base = [norm(st.value).replace(' ', '') for st, _ in walk(ss.node) if isinstance(st, ast.Assign) and norm(st.targets[0]) == 'state']
+        from ..names import return_names
+        rn = return_names(ss)
+        SV = rn[0] if len(rn) == 1 and rn[0] else 'state'
+        base = [norm(st.value).replace(' ', '') for st, _ in walk(ss.node) if isinstance(st, ast.Assign) and norm(st.targets[0]) == SV]
         run.check(len(base) == 1 and base[0].startswith('maximally_mixed_state(stabilizers.N'), 'R2.rank', ss, 'state = maximally_mixed_state(N)',
                   'the projection starts from the maximally mixed state (found %s)' % base)
         flipped_g = any('flipud(stabilizers.gs)' in norm(st.value).replace(' ', '') for st, _ in proj)
         signs = [st for st, _ in walk(ss.node) if isinstance(st, ast.Assign) and isinstance(st.targets[0], ast.Subscript)
-                 and norm(st.targets[0].value) == 'state.ps']
+                 and norm(st.targets[0].value) == SV + '.ps']
         if len(signs) != 1:
             run.violation('R13.signs', ss, 'state.ps[...] = stabilizers.ps', 'the signs of the stabilizers must be assigned exactly once')
         else:
             st = signs[0]
             sl = norm(st.targets[0].slice).replace(' ', '')
-            run.check(sl == 'state.r:state.N', 'R13.signs', ss, st, 'signs belong to the active stabilizer rows [state.r:state.N] (found [%s])' % sl)
+            run.check(sl == '%s.r:%s.N' % (SV, SV), 'R13.signs', ss, st, 'signs belong to the active stabilizer rows [state.r:state.N] (found [%s])' % sl)
             flipped_p = 'flipud' in norm(st.value) or '[::-1]' in norm(st.value).replace(' ', '')
             run.check(flipped_g != flipped_p and 'stabilizers.ps' in norm(st.value), 'R13.signs', ss, st,
                       'each projection lands on the row just below the previous one, so the strings are projected in reverse order '
                       'and the signs assigned in input order (exactly one of the two is flipped)')
             run.check(st.lineno > proj[0][0].lineno if proj else False, 'R13.signs', ss, st, 'signs are assigned after the projection fixed the rank')
         rets = [norm(st.value) for st, _ in walk(ss.node) if isinstance(st, ast.Return)]
-        run.check(rets == ['state'], 'R2.rank', ss, 'return state', 'the projected state is returned')
+        run.check(rets == [SV] and len(base) == 1, 'R2.rank', ss, 'return state', 'the projected state is returned')
         # to_qutip
         tq = repo.func(rel, 'StabilizerState.to_qutip')
         loops = [st for st, _ in walk(tq.node) if isinstance(st, ast.For) and not isinstance(st.iter, ast.ListComp)]
